@@ -404,6 +404,32 @@ def reachable_blocks(fn, evalcond):
     return seen
 
 
+def path_avoiding(fn, start, goal, avoid, evalcond=None, within=None):
+    """a block path start -> goal that passes none of the blocks in `avoid` (branch conditions folded by evalcond, stateless), or None"""
+    seen, stack = set(), [(start, [start])]
+    while stack:
+        x, path = stack.pop()
+        if x in seen or x in avoid:
+            continue
+        seen.add(x)
+        blk = fn.blocks[x]
+        succs = blk['succs']
+        t = blk.get('term')
+        if evalcond and t and 'cond' in t and len(succs) == 2 and t['k'] != 'switch':
+            v = evalcond(fn, t['cond'], None)
+            nxt = [s for i, s in enumerate(succs) if s is not None and not (isinstance(v, bool) and v != (i == 0))]
+        elif evalcond and t and 'cond' in t and t['k'] == 'switch':
+            nxt = [s for i, s in _switch_choices(fn, t, succs, evalcond(fn, t['cond'], None))]
+        else:
+            nxt = [s for s in succs if s is not None]
+        for sx in nxt:
+            if sx == goal:
+                return path
+            if within is None or sx in within:
+                stack.append((sx, path + [sx]))
+    return None
+
+
 def reach_with_paths(fn, evalcond):
     """{block: witness path [(block, edge index)...]} for blocks reachable under the folded conditions"""
     parent = {fn.entry: None}
